@@ -109,9 +109,11 @@ func NewConn(ctx context.Context, conn net.Conn, options ...Option) (outConn *Co
 		outConn.readBuf, err = outConn.inner.Marshal()
 	} else {
 		outConn.readBuf, err = outConn.outer.Marshal()
-		if len(raw) != len(record) || len(raw) != len(outConn.readBuf) {
+		if len(raw) != len(record) || !bytes.Equal(raw, outConn.readBuf) {
 			// The hello is passed through. Keep the records as the client
-			// framed them, and anything else they carry after the hello.
+			// framed them (the record header's legacy version included: a
+			// first hello usually carries 0x0301 there), and anything else
+			// they carry after the hello.
 			outConn.readBuf = raw
 		}
 	}
